@@ -162,6 +162,18 @@ check("C05", "exploration",
       "closures computed by git rev-list --objects on the sender; gitlink targets excluded; a dulwich server refusing a client without thin-pack is a refused configuration; capability subsets of a scripted upload-pack client are not yet enumerated",
       "DESIGN.md §5 C05")
 
+check("C04", "fault_enumeration",
+      "exhaustive byte/bit/truncation fault enumeration of small valid packs and installed files plus 41 grammar-aware hostile packs, each run against the real ingestion paths in crash-isolated workers under a kernel address-space limit, a CPU budget relative to the undamaged input and a zlib output monitor; post-state oracle compares the store seen by a fresh Repo and the pack directory against the pre-state and re-hashes every visible object with hashlib",
+      "5 seed packs (git full/OFS/REF/thin, dulwich deltified; 1-2 KB) x paths {add_thin_pack with hostile chunking, add_pack+commit, PackStreamReader, "
+      "MemoryObjectStore.add_thin_pack, ReceivePackHandler, add_pack_data from a source pack with intact idx and damaged data}: every byte x "
+      "{^01,^80,=00,=ff} (thorough: all 8 bit flips, every position and every truncation on every path), tails, splices; grammar attacks: count "
+      "high/low/huge, wrong trailer, versions, OFS offset 0/beyond start/into an entry/forward, REF delta to self/missing/two-cycle, empty delta, "
+      "zero/garbage/headerless commit-tree-tag payloads, size header too small/big/2^64, zlib trailing garbage, single- and multi-slice "
+      "decompression bombs, valid depth-40 chain; installed loose object/idx/index/packed-refs/commit-graph/multi-pack-index: every (2nd) byte "
+      "x 2 patterns + truncations, reads through Repo. Rust and pure-Python decoders both driven.",
+      "ordinary error = Exception subclass; leftover tmp files after a failed ingestion are counted, not judged; Pack.get_raw trusts its idx by design, only store[id] is judged for damaged indexes; the inflation bound is declared size + 64 KiB per zlib stream",
+      "DESIGN.md §5 C04")
+
 ALL = ["C%02d" % i for i in range(1, 21)]
 
 
